@@ -1132,7 +1132,7 @@ impl fmt::Binary for Natural {
         let mantissa = self.mantissa();
         let bit_width = bit_width(mantissa, self.shl);
 
-        pad_integral(f, bit_width, "0b", move |f| {
+        pad_integral(f, bit_width.max(1), "0b", move |f| {
             let msd = *mantissa.last().unwrap();
             if msd == 0 {
                 return f.write_char('0');
@@ -1171,7 +1171,7 @@ impl Natural {
 
         let mut mantissa = self.mantissa();
         let bit_width = bit_width(mantissa, self.shl);
-        let digits = bit_width.div_ceil(bits_per_digit as u128);
+        let digits = bit_width.div_ceil(bits_per_digit as u128).max(1);
         let rem_bits = (bit_width % bits_per_digit as u128) as u32;
 
         pad_integral(f, digits, prefix, move |f| {
